@@ -1,8 +1,8 @@
 (* C10 driver.
    input  (H tp ...)            tp = (marker ...), marker = (kind name ...), kind 0=Onset 1=Offset 2=Inset,
                                 name = (codepoints)
-          (F fixed perm1 perm2 row ...)  perm = N | (i ...); row = (onset invalid (group ...));
-                                group = (delay marker) with delay = N | int, marker = N | (kind name ...)
+          (F fixed perm1 perm2 row ...)  perm = N | (i ...); row = (onset ((sev ...) ...) (group ...)), sev 1=ERROR 0=WARNING, one list per non-empty HED cell;
+                                group = (delay marker) with delay = N | X (no conversion) | int, marker = N | (kind name ...)
    output (ok ((state) (issue ...)) ...)                 for H, one pair per time point
           (ok (state) ((orig (issue ...)) ...)) | (exn E) for F
    issue = (ikind pos name), state = (key ...) *)
@@ -23,10 +23,13 @@ let state_sx (st : n list list) = L (List.map str_sx st)
 let sx_opt f x = match x with A "N" -> None | _ -> Some (f x)
 let sx_perm x = sx_opt (fun y -> List.map sx_nat (sx_list y)) x
 let sx_group x = match sx_list x with
-  | [d; m] -> (sx_opt (fun a -> n_of_int (sx_int a)) d, sx_opt sx_marker m)
+  | [d; m] -> ((match d with A "N" -> NoDelay | A "X" -> Delay None | a -> Delay (Some (n_of_int (sx_int a)))), sx_opt sx_marker m)
   | _ -> failwith "group"
 let sx_row x = match sx_list x with
-  | [o; inv; gs] -> { r_onset = n_of_int (sx_int o); r_invalid = sx_bool inv; r_groups = List.map sx_group (sx_list gs) }
+  | [o; cells; gs] ->
+    { r_onset = n_of_int (sx_int o);
+      r_cells = List.map (fun c -> List.map (fun x -> if sx_int x = 1 then SevError else SevWarning) (sx_list c)) (sx_list cells);
+      r_groups = List.map sx_group (sx_list gs) }
   | _ -> failwith "row"
 
 let () = main_loop (fun x ->
